@@ -21,8 +21,39 @@ def jobs(rng, thorough):
     return out
 
 
+def synthetic_pass(ctx):
+    """user-defined subclasses of the bundled classes (re-declared / added functions): the GETs of a real initialize() against an independent
+    statement of the property (harness/synth.py)"""
+    from .. import synth
+    from ..realobj import subunit_class
+    T = core.tables()
+    n = 0
+    for rep in range(6 if ctx.tier == "thorough" else 1):
+        for c in T["classes"]:
+            base = subunit_class(c["py"])
+            for what, cls in [(f"{c['py']}: the bundled class itself", base)] + synth.variants(ctx.rng, base):
+                gets, exc, sid = synth.init_gets(cls)
+                want = [(sid, q) for q in synth.expected_queries(cls)] + [("SYS", "VERSION")]
+                ctx.case(("synthetic", what))
+                ctx.count("synthetic_classes")
+                n += 1
+                if exc is not None:
+                    ctx.violation(f"{what}: initialize() raised {type(exc).__name__}: {exc} although the sync query was answered at once",
+                                  {"path": "synthetic", "what": what}, {"kind": "synthetic-raises"})
+                elif gets != want:
+                    dup = sorted({g for g in gets if gets.count(g) > 1})
+                    extra = [g for g in gets if g not in want]
+                    missing = [g for g in want if g not in gets]
+                    ctx.violation(f"{what}: initialize() requested {len(gets)} GETs, expected {len(want)}"
+                                  + (f"; requested more than once: {dup}" if dup else "") + (f"; must not be requested: {extra}" if extra else "")
+                                  + (f"; missing: {missing}" if missing else "") + ("" if dup or extra or missing else "; order differs"),
+                                  {"path": "synthetic", "what": what, "gets": gets, "expected": want}, {"kind": "synthetic-queries"})
+    ctx.cov["synthetic_subclasses_initialised"] = n
+
+
 def run(ctx: core.Ctx):
     ctx.lean_stage(extra_props=("C06b", "C06c", "Tie"))
+    synthetic_pass(ctx)
     results = b2check.run_b2(ctx, jobs, ["C06", "L5run"], label="subunit initialisation")
     b2check.l5_fold(ctx, results, "SubunitBase.initialize()")
     ctx.info["rule"] = ("23 classes x devices answering a random subset of functions with valid values, unsolicited reports, latencies 0..1 s, devices that never answer the sync query or fall silent; each under a seeded schedule, some with extra line-level preemptions; a case = one schedule; non-trivial = distinct (spec, seed)")
@@ -30,4 +61,8 @@ def run(ctx: core.Ctx):
 
 
 def replay(ctx, path):
-    return b2check.replay_b2(json.load(open(path))["replay"], ["C06"])
+    rp = json.load(open(path))["replay"]
+    if rp.get("path") == "synthetic":
+        print(json.dumps(rp, indent=1))
+        return 1
+    return b2check.replay_b2(rp, ["C06"])
